@@ -68,7 +68,9 @@ class Gen(object):
             b, bm = self.int_expr(env, depth - 1)
             return ("op", "+", a, b), am + bm
         if k < 0.65:
-            c = r.choice([2, 3, 4, 8])
+            # strides that are not powers of two (12, 20, 10, 6) make the offset's known modulus exceed
+            # the widest access without being a multiple of it: alignment claims must reduce it by gcd
+            c = r.choice([2, 3, 4, 8, 2, 3, 4, 8, 5, 6, 10, 12, 20])
             return ("op", "*", a, ("n", c)), am * c
         if k < 0.8:
             b, bm = self.int_expr(env, depth - 1)
